@@ -15,6 +15,7 @@ import AcryoVerif.Model.Rigid
 import AcryoVerif.Model.Loader
 import AcryoVerif.Model.Cache
 import AcryoVerif.Model.Pca
+import AcryoVerif.Model.Pipe
 
 /-! Dispatch of hand-written model operations for the line-protocol driver. -/
 namespace Model
@@ -410,6 +411,95 @@ def opWithLabel (a : Array Rat) : String :=
   | .ok out => " ".intercalate (out.map fun c => c.1 ++ "=" ++ ",".intercalate (c.2.map toString))
   | .error e => "err:" ++ toString e
 
+/-! pipeline expressions: prefix encoding
+`PE ::= 0 k | 1 op a b | 2 op a s | 3 op s a | 4 a | 5 c a`,
+`CE ::= 0 k | 1 op a b | 2 op a p | 3 op a s | 4 op s a | 5 a | 6 a b`, `op` = index into
+`add sub mul div eq ne lt le gt ge`. -/
+def binOpOf (k : Int) : BinOp :=
+  match k with
+  | 0 => .add | 1 => .sub | 2 => .mul | 3 => .div | 4 => .eq | 5 => .ne
+  | 6 => .lt | 7 => .le | 8 => .gt | _ => .ge
+
+mutual
+  partial def parsePE (l : List Rat) : Option (PE × List Rat) :=
+    match l with
+    | 0 :: k :: r => some (.base k.floor.toNat, r)
+    | 1 :: op :: r => do
+      let (a, r) ← parsePE r
+      let (b, r) ← parsePE r
+      pure (.bin (binOpOf op.floor) a b, r)
+    | 2 :: op :: r => do
+      let (a, r) ← parsePE r
+      match r with
+      | s :: r => pure (.binS (binOpOf op.floor) a s, r)
+      | [] => none
+    | 3 :: op :: s :: r => do
+      let (a, r) ← parsePE r
+      pure (.binR (binOpOf op.floor) s a, r)
+    | 4 :: r => do
+      let (a, r) ← parsePE r
+      pure (.neg a, r)
+    | 5 :: r => do
+      let (c, r) ← parseCE r
+      let (a, r) ← parsePE r
+      pure (.app c a, r)
+    | _ => none
+  partial def parseCE (l : List Rat) : Option (CE × List Rat) :=
+    match l with
+    | 0 :: k :: r => some (.base k.floor.toNat, r)
+    | 1 :: op :: r => do
+      let (a, r) ← parseCE r
+      let (b, r) ← parseCE r
+      pure (.bin (binOpOf op.floor) a b, r)
+    | 2 :: op :: r => do
+      let (a, r) ← parseCE r
+      let (p, r) ← parsePE r
+      pure (.binP (binOpOf op.floor) a p, r)
+    | 3 :: op :: r => do
+      let (a, r) ← parseCE r
+      match r with
+      | s :: r => pure (.binS (binOpOf op.floor) a s, r)
+      | [] => none
+    | 4 :: op :: s :: r => do
+      let (a, r) ← parseCE r
+      pure (.binR (binOpOf op.floor) s a, r)
+    | 5 :: r => do
+      let (a, r) ← parseCE r
+      pure (.neg a, r)
+    | 6 :: r => do
+      let (a, r) ← parseCE r
+      let (b, r) ← parseCE r
+      pure (.comp a b, r)
+    | _ => none
+end
+
+/-- the primitive providers / converters of the correspondence harness (2x2x2 images, C order) -/
+def primP (k : Nat) : Prov :=
+  match k with
+  | 0 => ⟨fun _ => (List.range 8).map fun i => ((i : Nat) : Rat) + 1⟩
+  | 1 => ⟨fun σ => (List.range 8).map fun i => (((i % 3 : Nat) : Rat) + 1) * σ⟩
+  | 2 => ⟨fun _ => (List.range 8).map fun i => ((2 ^ (i % 4) : Nat) : Rat)⟩
+  | _ => ⟨fun _ => (List.range 8).map fun i => 4 - ((i : Nat) : Rat)⟩
+
+def primC (k : Nat) : Conv :=
+  match k with
+  | 0 => ⟨fun x σ => x.map fun v => 2 * v + σ⟩
+  | 1 => ⟨fun x _ => x.reverse⟩
+  | 2 => ⟨fun x _ => x.map fun v => v * v⟩
+  | _ => ⟨fun x _ => x.drop 1 ++ x.take 1⟩
+
+/-- `pipeP scale tokens…` → the image the built provider yields at `scale` -/
+def opPipeP (a : Array Rat) : String :=
+  match parsePE (a.toList.drop 1) with
+  | some (e, []) => Canon.canon ((buildP primP primC e).f a[0]!)
+  | _ => "err:parse"
+
+/-- `pipeC scale tokens…` → the built converter applied to the image `1..8` -/
+def opPipeC (a : Array Rat) : String :=
+  match parseCE (a.toList.drop 1) with
+  | some (e, []) => Canon.canon ((buildC primP primC e).f ((List.range 8).map fun i => ((i : Nat) : Rat) - 3) a[0]!)
+  | _ => "err:parse"
+
 def dispatch (name : String) (a : Array Rat) : Option String :=
   match name with
   | "prepAffine" => some (flat (opPrepAffine a))
@@ -453,6 +543,8 @@ def dispatch (name : String) (a : Array Rat) : Option String :=
   | "ravel" => some (opRavel a)
   | "unravel" => some (opUnravel a)
   | "withLabel" => some (opWithLabel a)
+  | "pipeP" => some (opPipeP a)
+  | "pipeC" => some (opPipeC a)
   | _ => none
 
 end Model
